@@ -28,3 +28,10 @@ Definition tax_of (p : bparams) (v : N) : N :=
 
 Definition params_safe (p : bparams) : Prop :=
   bp_rate p < c_MaxTaxBP /\ c_DustTxoutAmount <= bp_min p /\ 1 <= bp_conf p.
+
+(* Params.Validate of x/bitcoin/types/params.go (genesis validation), numeric part: the network name and the
+   magic prefix length are held valid *)
+Definition params_validate (p : bparams) : bool :=
+  negb (bp_min p <? c_DustTxoutAmount) && negb (bp_conf p =? 0) &&
+  (if 0 <? bp_rate p then negb ((bp_cap p =? 0) || (10000 <? bp_rate p)) && negb (100000000 <? bp_cap p)
+   else bp_cap p =? 0).
